@@ -50,9 +50,15 @@ func CheckPackageOnly(
 		reportedTypes := make(map[string]bool)
 		context.reportedTypes = &reportedTypes
 
+		// The selected name of "pkg.Name" / "value.Method" is judged with its selector expression,
+		// not a second time as a bare identifier
+		selected := make(map[*ast.Ident]bool)
+		context.selected = selected
+
 		ast.Inspect(file, func(n ast.Node) bool {
 			switch node := n.(type) {
 			case *ast.SelectorExpr:
+				selected[node.Sel] = true
 				// Check selector expressions like "pkg.Type" or "pkg.Function"
 				if v := findSelectorExprViolation(&context, node); v != nil {
 					violations = append(violations, *v)
@@ -79,6 +85,7 @@ type packageOnlyContext struct {
 	currentPkgName   string
 	ignoreSet        *util.IgnoreSet
 	reportedTypes    *map[string]bool
+	selected         map[*ast.Ident]bool
 }
 
 // findSelectorExprViolation checks selector expressions like "pkg.Type" or "pkg.Function"
@@ -142,23 +149,25 @@ func findIdentViolation(
 		return findTypeViolation(ctx, aliased.Pkg().Path(), aliased.Name(), ident.Pos())
 	}
 
-	// Only check local package objects (imports are handled by selector expressions)
-	if obj.Pkg() == nil || obj.Pkg().Path() != ctx.currentPkgPath {
+	// A bare identifier denotes an object of this package or of a dot-imported one
+	// (qualified names are handled by selector expressions)
+	if obj.Pkg() == nil || ctx.selected[ident] {
 		return nil
 	}
+	pkgPath := obj.Pkg().Path()
 
 	switch obj := obj.(type) {
 	case *types.TypeName:
-		return findTypeViolation(ctx, ctx.currentPkgPath, obj.Name(), ident.Pos())
+		return findTypeViolation(ctx, pkgPath, obj.Name(), ident.Pos())
 
 	case *types.Func:
 		if obj.Type() != nil && obj.Type().(*types.Signature).Recv() != nil {
 			// Method
 			recvType := util.ExtractTypeName(obj.Type().(*types.Signature).Recv().Type())
-			return findMethodViolation(ctx, ctx.currentPkgPath, recvType, obj.Name(), ident.Pos())
+			return findMethodViolation(ctx, pkgPath, recvType, obj.Name(), ident.Pos())
 		} else {
 			// Function
-			return findFunctionViolation(ctx, ctx.currentPkgPath, obj.Name(), ident.Pos())
+			return findFunctionViolation(ctx, pkgPath, obj.Name(), ident.Pos())
 		}
 	}
 
